@@ -145,6 +145,60 @@ def cell_cover(rng):
     return out
 
 
+SIZES_QUICK = [1, 2, 3, 7, 8, 9, 16, 17, 31, 32, 33, 40, 63, 64, 65, 100]
+SIZES_THOROUGH = SIZES_QUICK + [5, 15, 24, 48, 96, 127, 128, 129, 200, 257]
+
+
+def size_cover(rng, thorough):
+    """every reduction rule over operands whose LENGTH crosses the internal thresholds of blocked / pairwise /
+    'small n' code paths (checklist 17): lengths 1 … 257 incl. odd, even, 2^k, 2^k ± 1, with dense dependence of
+    every element on the differentiation variable (A @ y) and sparse dependence (x ± c, views)"""
+    from optyx import VectorVariable
+    from optyx.core import vectors as V
+    from optyx.core import matrices as M
+    from optyx.core.functions import sin
+
+    out = []
+    for n in (SIZES_THOROUGH if thorough else SIZES_QUICK):
+        x = VectorVariable(f"sx{n}_", n)
+        y = VectorVariable(f"sy{n}_", 3)
+        A = np.array([[((7 * i + 3 * j) % 11 - 5) / 4.0 or 0.75 for j in range(3)] for i in range(n)])
+        b = np.array([((5 * i) % 7 - 3) / 2.0 for i in range(n)])
+        cs = np.array([((3 * i) % 5 - 2) / 2.0 or 1.25 for i in range(n)])
+        Ay = M.MatrixVectorProduct(A, y)
+        vexprs = [("Ay", Ay), ("Ay-b", A @ y - b), ("x+1", x + 1.0), ("x-rev", x - x[::-1]),
+                  ("sin", V.VectorExpression([sin(y[i % 3]) * float(i + 1) for i in range(n)])),
+                  ("mix", V.VectorExpression([y[i % 3] * x[i] for i in range(n)]))]
+        views = [("x", x), ("rev", x[::-1]), ("half", x[0:max(1, n // 2)]), ("odd", x[1::2] if n > 1 else x)]
+        wrts = [y[0], y[2], x[0], x[n - 1], x[n // 2]]
+        nodes = []
+        for tag, v in vexprs + views:
+            m = len(list(v))
+            nodes.append((f"lc:{tag}", V.LinearCombination(cs[:m], v)))
+            nodes.append((f"l2:{tag}", V.L2Norm(v)))
+            nodes.append((f"l1:{tag}", V.L1Norm(v)))
+            nodes.append((f"dotself:{tag}", V.DotProduct(v, v)))
+            if m == n:
+                nodes.append((f"dot:{tag}", V.DotProduct(v, Ay)))
+                nodes.append((f"dotx:{tag}", V.DotProduct(x, v)))
+            if tag in ("x", "rev", "half", "odd"):
+                nodes.append((f"vs:{tag}", V.VectorSum(v)))
+                nodes.append((f"ps3:{tag}", V.VectorPowerSum(v, 3)))
+                nodes.append((f"ussin:{tag}", V.VectorUnarySum(v, "sin")))
+            else:
+                nodes.append((f"es:{tag}", v.sum()))
+            if m <= (70 if thorough else 40):
+                # dense Q (every row of Q + Q.T has m non-zeros) and a banded Q
+                Qd = np.array([[((i * 5 + j * 3) % 7 - 3) / 2.0 + (2.0 if i == j else 0.0) for j in range(m)] for i in range(m)])
+                Qb = np.array([[1.0 + i if i == j else (0.5 if abs(i - j) == 1 else 0.0) for j in range(m)] for i in range(m)])
+                nodes.append((f"qfd:{tag}", M.QuadraticForm(v, Qd)))
+                nodes.append((f"qfb:{tag}", M.QuadraticForm(v, Qb)))
+        for tag, node in nodes:
+            for w in wrts:
+                out.append((f"size:{n}:{tag}", node, w))
+    return out
+
+
 def py_gradients(e, w):
     """the real function through each of its tiers; returns {tier: serialised | 'raise:<Class>'}"""
     import optyx.core.autodiff as AD
@@ -214,6 +268,8 @@ def run(ctx) -> core.Report:
     cases = []
     for tag, e, w in cell_cover(rng):
         cases.append((tag, e, w, False))
+    for tag, e, w in size_cover(rng, thorough):
+        cases.append((tag, e, w, False))
     n_rand = 20000 if thorough else 3000
     depth_hi = 6 if thorough else 4
     for i in range(n_rand):
@@ -280,9 +336,9 @@ def run(ctx) -> core.Report:
     # numeric oracle on the regular-by-construction subset + all cell-cover cases
     n_num = 0
     for tag, e, w, safe, s, ws in metas:
-        if not (safe or tag.startswith(("bin", "pow", "un", "vec", "powpow", "unpow", "powun"))):
+        if not (safe or tag.startswith(("bin", "pow", "un", "vec", "powpow", "unpow", "powun", "size"))):
             continue
-        if n_num > (120000 if thorough else 16000):
+        if n_num > (160000 if thorough else 26000):
             break
         vs = gen.expr_vars(e)
         names = {v.name for v in vs} | {w.name}
